@@ -187,8 +187,9 @@ def tv_run(prop, tier, replay_path, *, harness_dirs, pkg, test, trace_module, ta
             c0["evaluations"] += cov["evaluations"]
             c0["distinct_nontrivial"] += cov["distinct_nontrivial"]
             c0["samples"] += cov["samples"][:3]
-            c0["second_engine"] = {"driver": test, "trace_module": trace_module, "driver_op_counts": stats_all,
-                                   "tlc_exhaustive": mc_runs, "events": events}
+            c0.setdefault("extra_engines", []).append(
+                {"driver": test, "trace_module": trace_module, "driver_op_counts": stats_all,
+                 "tlc_exhaustive": mc_runs, "events": events, "traces": traces})
             write_evidence(prop, tier, seed, ev["level"], c0, ev["wall_s"] + time.time() - t0,
                            ev.get("violations", 0) + nviol, assumptions=ev.get("assumptions", []) + list(assumptions))
         else:
